@@ -4,6 +4,7 @@
 From Coq Require Import List NArith ZArith Bool.
 From GoPdf.Base Require Import Bytes.
 From GoPdf.Gen Require Import Gen_Perm.
+From GoPdf.Base Require Import Res.
 From GoPdf.C09 Require Import StdSec.
 Import ListNotations.
 Open Scope nat_scope.
@@ -108,3 +109,75 @@ Definition versions : list Z := map Z.of_nat (seq 1 8).
 Definition perms : list Z := map Z.of_nat (seq 0 128).
 (* plaintext metadata is accepted by NewWriter from PDF 1.6 on *)
 Definition meta_modes (version : Z) : list bool := if (6 <=? version)%Z then [false; true] else [false].
+
+(* ---- exemption goes by object identity, not by what a dictionary looks like ------------------------- *)
+
+Definition oref := (N * N)%type.   (* object number, generation *)
+Definition oref_eqb (a b : oref) : bool := N.eqb (fst a) (fst b) && N.eqb (snd a) (snd b).
+
+(* what the dictionary of an object looks like *)
+Inductive shape :=
+| ShPlain | ShMetadataXML | ShXRef | ShObjStm | ShEmbeddedFile | ShEncryptLike | ShIDLike | ShSigLike.
+
+(* the facts about a document that decide exemption: which object IS the catalog's /Metadata, which IS the
+   cross-reference stream, which ARE object streams (containers) and their members *)
+Record docinfo := {
+  di_meta : option oref;
+  di_xref : option oref;
+  di_containers : list oref;
+  di_members : list oref
+}.
+
+Definition is_some_ref (o : option oref) (r : oref) : bool := match o with Some x => oref_eqb x r | None => false end.
+
+(* the shape argument is deliberately unused *)
+Definition kind_of (di : docinfo) (r : oref) (sh : shape) : okind :=
+  if is_some_ref (di_meta di) r then KMetadata
+  else if is_some_ref (di_xref di) r then KXRefStream
+  else if existsb (oref_eqb r) (di_containers di) then KContainer
+  else if existsb (oref_eqb r) (di_members di) then KMember
+  else KDirect.
+
+Definition ordinary (di : docinfo) (r : oref) : bool :=
+  negb (is_some_ref (di_meta di) r) && negb (is_some_ref (di_xref di) r)
+  && negb (existsb (oref_eqb r) (di_containers di)) && negb (existsb (oref_eqb r) (di_members di)).
+
+(* ---- one object written and read back ------------------------------------------------------------------ *)
+
+Record cfg := { c_aes : bool; c_R : Z; c_kb : nat; c_fkey : bytes; c_plain_meta : bool; c_doc : docinfo }.
+
+Record dobj := { o_ref : oref; o_shape : shape; o_strings : list bytes; o_stream : option (list bytes) }.
+
+Fixpoint enc_strings (aes : bool) (okey : bytes) (ivs : list bytes) (ss : list bytes) : list bytes :=
+  match ss, ivs with
+  | s :: ss', iv :: ivs' => encrypt_bytes aes okey iv s :: enc_strings aes okey ivs' ss'
+  | s :: ss', [] => encrypt_bytes aes okey [] s :: enc_strings aes okey [] ss'
+  | [], _ => []
+  end.
+
+Fixpoint dec_strings (aes : bool) (okey : bytes) (cs : list bytes) : res (list bytes) :=
+  match cs with
+  | [] => Ok []
+  | c :: r => bind (decrypt_bytes aes okey c) (fun p => bind (dec_strings aes okey r) (fun ps => Ok (p :: ps)))
+  end.
+
+(* stored form: strings and stream data of the object as they appear in the file *)
+Definition write_obj (c : cfg) (ivs : list bytes) (siv : bytes) (o : dobj) : list bytes * option bytes :=
+  let k := kind_of (c_doc c) (o_ref o) (o_shape o) in
+  let '(es, et) := encrypts k (c_plain_meta c) in
+  let okey := key_for_ref (c_R c) (c_kb c) (c_fkey c) (c_aes c) (fst (o_ref o)) (snd (o_ref o)) in
+  (if es then enc_strings (c_aes c) okey ivs (o_strings o) else o_strings o,
+   match o_stream o with
+   | None => None
+   | Some writes => Some (if et then encrypt_stream (c_aes c) okey siv writes else concat writes)
+   end).
+
+Definition read_obj (c : cfg) (r : oref) (sh : shape) (stored : list bytes * option bytes) : res (list bytes * option bytes) :=
+  let k := kind_of (c_doc c) r sh in
+  let '(es, et) := encrypts k (c_plain_meta c) in
+  let okey := key_for_ref (c_R c) (c_kb c) (c_fkey c) (c_aes c) (fst r) (snd r) in
+  bind (if es then dec_strings (c_aes c) okey (fst stored) else Ok (fst stored)) (fun ss =>
+  match snd stored with
+  | None => Ok (ss, None)
+  | Some data => bind (if et then decrypt_stream (c_aes c) okey data else Ok data) (fun d => Ok (ss, Some d))
+  end).
